@@ -93,6 +93,7 @@ type Exec struct {
 	prefer       *Term
 	natural      bool
 	fpPrecise    bool
+	preempt      bool
 	coros        []*coro
 	curCoro      *coro
 	progress     int
@@ -641,6 +642,7 @@ func (e *Exec) runFrame(fr *frame, args []Value) Value {
 						e.blockedStep("on unbuffered send in " + fn.String())
 					}
 				}
+				e.maybePreempt()
 			case *ssa.Go:
 				// sequential mode: record, do not run
 			case *ssa.MapUpdate:
@@ -1094,6 +1096,23 @@ func (e *Exec) unop(fr *frame, in *ssa.UnOp) Value {
 		return e.loadPtr(x)
 	case token.ARROW:
 		ch := x.(VChan)
+		if me := e.curCoro; me != nil && ch.C != nil {
+			// among cooperative goroutines a value goes to the longest-waiting receiver
+			mine := func() bool { return len(ch.C.Waiters) == 0 || ch.C.Waiters[0] == me }
+			for !(e.chanRecvReady(ch.C) && mine()) {
+				queued := false
+				for _, w := range ch.C.Waiters {
+					queued = queued || w == me
+				}
+				if !queued {
+					ch.C.Waiters = append(ch.C.Waiters, me)
+				}
+				e.blockedStep("on receive in " + fr.fn.String())
+			}
+			if len(ch.C.Waiters) > 0 && ch.C.Waiters[0] == me {
+				ch.C.Waiters = ch.C.Waiters[1:]
+			}
+		}
 		for !e.chanRecvReady(ch.C) {
 			e.blockedStep("on receive in " + fr.fn.String())
 		}
